@@ -124,6 +124,87 @@ pub fn compose<S: Source>(s: &mut S, input: &[usize], inp: usize, hid: usize, ou
     forget((act1, i1, i2));
 }
 
+/// `Model::forward` is the composition of its layers in order (two dense layers), through
+/// the `Model` struct itself (forward only)
+pub fn model_forward<S: Source>(s: &mut S, input: &[usize], inp: usize, hid: usize, out: usize) {
+    use corgi::model::Model;
+    use corgi::optimizer::gd::GradientDescent;
+    let i1 = initializer(s.vals(inp * hid + hid, Dom::D2));
+    let i2 = initializer(s.vals(hid * out + out, Dom::D2));
+    let mut l1 = Dense::new(inp, hid, &i1, None);
+    let mut l2 = Dense::new(hid, out, &i2, None);
+    let p1 = params_ref(&mut l1);
+    let p2 = params_ref(&mut l2);
+    let x = mk(s, input, Dom::D2);
+    let xr = konst(&x, 0);
+    let gd = GradientDescent::new(0.5);
+    let costf = cost::mse();
+    let y = {
+        let mut model = Model::new(vec![&mut l1, &mut l2], &gd, &costf);
+        let y = model.forward(x.clone());
+        forget(model);
+        y
+    };
+    let h = refmodel::matmul(&xr, false, &p1[0], true, Some(&p1[1])).expect("[ref]");
+    let e = refmodel::matmul(&h, false, &p2[0], true, Some(&p2[1])).expect("[ref]");
+    check_forward(&y, &e, false);
+    witness();
+    forget((l1, l2, x, y));
+    forget((i1, i2, costf));
+}
+
+/// `Model::backward` returns the sum of the cost array of the last forward's output and
+/// leaves the loss gradient on the parameters (forward + backward through `Model`, no update)
+pub fn model_backward<S: Source>(s: &mut S, input: &[usize], inp: usize, out: usize) {
+    use corgi::model::Model;
+    use corgi::optimizer::gd::GradientDescent;
+    let init = initializer(s.vals(inp * out + out, Dom::D2));
+    let mut layer = Dense::new(inp, out, &init, None);
+    let ndir = inp * out + out;
+    let mut pv: Vec<T> = Vec::new();
+    let mut first = 0;
+    for p in layer.parameters() {
+        pv.push(T::var(p.dimensions(), p.values().to_vec(), first, ndir));
+        first += p.values().len();
+    }
+    let x = mk(s, input, Dom::D2);
+    let xr = T::konst(x.dimensions(), x.values().to_vec(), ndir);
+    let gd = GradientDescent::new(0.5);
+    let costf: corgi::cost::CostFunction = Box::new(|o: &Array, t: &Array| o * t);
+    let yr = refmodel::matmul(&xr, false, &pv[0], true, Some(&pv[1])).expect("[ref]");
+    let t = mk(s, &yr.d, Dom::D2);
+    let tr = T::konst(t.dimensions(), t.values().to_vec(), ndir);
+    let loss = {
+        let mut model = Model::new(vec![&mut layer], &gd, &costf);
+        let y = model.forward(x.clone());
+        let loss = model.backward(t.clone());
+        forget((model, y));
+        loss
+    };
+    let er = yr.mul(&tr);
+    let mut lref: Float = 0.0;
+    for v in er.v.iter() {
+        lref += *v;
+    }
+    chk!(same(loss, lref, false), "[c15:model-loss] Model::backward did not return the sum of the cost array");
+    let ones = vec![1.0 as Float; er.len()];
+    let g = refmodel::vjp_all(&er, &ones);
+    let mut first = 0;
+    for p in layer.parameters() {
+        let gr = p.gradient();
+        chk!(gr.is_some(), "[grad:missing] a tracked leaf received no gradient");
+        if let Some(gr) = gr.as_ref() {
+            for k in 0..gr.values().len() {
+                chk!(gr.values()[k] == g[first + k], "[grad:value] gradient element differs from the seed-weighted sum of partial derivatives");
+            }
+            first += gr.values().len();
+        }
+    }
+    witness();
+    forget((layer, x, t));
+    forget((init, costf));
+}
+
 /// mse = (target - output)^2 / element count;  loss = sum of the cost array
 pub fn mse<S: Source>(s: &mut S, d: &[usize]) {
     let o = mk(s, d, Dom::D4);
